@@ -98,6 +98,8 @@ class Interp:
             return ("unknown", "promoted%d" % i)
         if "i" in op:
             return ("const", op["i"])
+        if "bytes" in op:
+            return ("const", "hex:" + "".join("%02x" % x for x in op["bytes"]))
         if "s" in op:
             return ("const", op["s"])
         if "cfn" in op:
@@ -149,6 +151,9 @@ class Interp:
                 bi = t["t"]
                 continue
             if k == "assert":
+                if t.get("msg") in ("MisalignedPointerDereference", "NullPointerDereference"):
+                    bi = t["t"]
+                    continue  # debug-build pointer checks: not part of the program's logic
                 c = self.operand(env, heap, t["cond"], body)
                 conds = conds + [(c, 1 if t["expected"] else 0)]
                 bi = t["t"]
@@ -298,6 +303,15 @@ class Interp:
         if orig in ("std::ops::Deref::deref", "std::ops::DerefMut::deref_mut", "std::clone::Clone::clone", "std::convert::AsRef::as_ref", "std::borrow::Borrow::borrow") and len(args) == 1:
             yield (args[0], heap, conds)
             return
+        if name == "new_uninit" and fn.startswith("std::boxed::Box::"):
+            self._boxn = getattr(self, "_boxn", 0) + 1
+            yield (("box", self._boxn), heap, conds)
+            return
+        if name == "box_assume_init_into_vec_unsafe" and args:
+            for k_, v_ in heap.items():
+                if isinstance(v_, tuple) and v_ and v_[0] == "agg" and v_[1] == "array" and _contains(k_, args[0]):
+                    yield (("vec", v_[2]), heap, conds)
+                    return
         if orig == "std::convert::Into::into" and len(t.get("targs", [])) == 2 and len(args) == 1:
             T, U = (self.subst_ty(self.facts.ty(i)) for i in t["targs"])
             cand = "<%s as std::convert::From<%s>>::from" % (U, T)
@@ -340,6 +354,9 @@ class Interp:
                     return
         self.opaque_calls.add(fn)
         self.events.append((fn, tuple(args), tuple(conds)))
+        if getattr(self, "impure", None) and self.impure(fn):
+            yield (("call", fn, tuple(args), ("site", body.get("def"), t.get("ln"), len([e for e in self.events if e[0] == fn]))), heap, conds)
+            return
         yield (("call", fn, tuple(args)), heap, conds)
 
     def model(self, fn, orig, name, args, heap, conds, depth):
@@ -354,6 +371,14 @@ class Interp:
         if cur[0] == "variant":
             return ("const", cur[3])
         return ("discr", a)
+
+
+def _contains(t, x):
+    if t == x:
+        return True
+    if isinstance(t, tuple):
+        return any(_contains(y, x) for y in t)
+    return False
 
 
 # ---- evaluation of extracted formulas ----------------------------------------------------------
@@ -512,7 +537,9 @@ def show(t):
     if h == "not":
         return "!%s" % show(t[1]) if isinstance(t[1], tuple) and t[1] and isinstance(t[1][0], str) else "not%s" % (t[1],)
     if h == "call":
-        return "%s(%s)" % (t[1].split("::")[-1], ", ".join(show(a) for a in t[2]))
+        return "%s%s(%s)" % (t[1].split("::")[-1], ("#%d" % t[3][3]) if len(t) > 3 else "", ", ".join(show(a) for a in t[2]))
+    if h == "vec":
+        return "vec![%s]" % ", ".join(show(a) for a in t[1])
     if h == "case":
         return "case{%s}" % "; ".join("%s -> %s" % (" & ".join("%s=%s" % (show(c), e) for c, e in cs) or "else", show(r)) for cs, r in t[1])
     if h == "tuple":
